@@ -157,7 +157,32 @@ impl OHLCV for Candle {
 //@extract src/core/candles.rs impl[OHLCV for Candle]::volume
 //@end
 }
+// aggregation of candles: first open, highest high, lowest low, last close, summed volume (core/candles.rs)
+pub open spec fn candle_add_spec<T: OHLCV>(a: Candle, b: &T, r: Candle) -> bool {
+	&&& r.open == a.open && r.close == b.close_s()
+	&&& r.high@ == rmax(a.high@, b.high_s()@) && r.low@ == rmin(a.low@, b.low_s()@)
+	&&& r.volume@ == a.volume@ + b.volume_s()@
+}
+impl<T: OHLCV> AddSpecImpl<T> for Candle {
+	open spec fn obeys_add_spec() -> bool { false }
+	open spec fn add_req(self, rhs: T) -> bool { true }
+	open spec fn add_spec(self, rhs: T) -> Candle { arbitrary() }
+}
+impl<T: OHLCV> core::ops::Add<T> for Candle {
+	type Output = Candle;
+//@extract src/core/candles.rs impl[std::ops::Add<T> for Candle]::add
+//@sig fn add(self, rhs: T) -> (r: Candle)
+	ensures candle_add_spec(self, &rhs, r),
+//@end
+}
 //@export-end
+
+// C18: aggregation by + is associative (over reals: float addition of volumes is not associative, so this is the honest reading)
+pub proof fn candle_add_assoc(a: Candle, b: Candle, c: Candle, ab: Candle, bc: Candle, l: Candle, r: Candle)
+	requires candle_add_spec(a, &b, ab), candle_add_spec(ab, &c, l), candle_add_spec(b, &c, bc), candle_add_spec(a, &bc, r)
+	ensures l.open == r.open, l.close == r.close, l.high@ == r.high@, l.low@ == r.low@, l.volume@ == r.volume@
+{
+}
 
 // valid candle, as the properties use the term (C05, C12, C17)
 pub open spec fn valid_candle<T: OHLCV>(c: &T) -> bool {
